@@ -6,8 +6,8 @@ import os
 
 ROOT = os.path.dirname(os.path.abspath(__file__))
 
-HOOK_COMMITS = ["fd7931a", "af3bf8c"]
-FIX_COMMITS = ["908afde", "7500af7", "0c458dd", "083bfe9", "1cdef64", "d4e0d22"]
+HOOK_COMMITS = ["fd7931a", "af3bf8c", "fec6bea"]
+FIX_COMMITS = ["908afde", "7500af7", "0c458dd", "083bfe9", "1cdef64", "d4e0d22", "9842718"]
 
 ALL = [f"C{i:02d}" for i in range(1, 21)]
 
